@@ -84,3 +84,40 @@ theorem run_need : ∀ (s : St) (es : List Ev) (s' : St), run s es = some s' →
     | some s1 => rw [hs] at h; rw [run_need s1 es s' h, step_need hs]
 
 end Fsm.R
+
+namespace Fsm.R
+
+def StoredReq (s : St) : Prop := ∀ x ∈ s.stored, x.1 ∈ s.reqd
+
+theorem storedReq_step {s s' : St} {e : Ev} (hi : StoredReq s) (hs : step s e = some s') : StoredReq s' := by
+  cases e with
+  | rStat => simp only [step] at hs; split at hs <;> cases hs; exact hi
+  | rEnd => simp only [step] at hs; split at hs <;> cases hs; exact hi
+  | rTerm id => simp only [step] at hs; split at hs <;> cases hs; exact hi
+  | sFin => simp only [step] at hs; split at hs <;> cases hs; exact hi
+  | sReq id =>
+    simp only [step] at hs
+    split at hs
+    · cases hs; intro x hx; exact List.mem_cons_of_mem _ (hi x hx)
+    · cases hs
+  | rData id b =>
+    simp only [step] at hs
+    split at hs
+    · rename_i hc
+      cases hs
+      intro x hx
+      simp only [List.mem_append, List.mem_singleton] at hx
+      rcases hx with hx | rfl
+      · exact hi x hx
+      · exact hc.1
+    · cases hs
+
+theorem storedReq_run : ∀ (es : List Ev) (s s' : St), StoredReq s → run s es = some s' → StoredReq s'
+  | [], s, s', hi, h => by simp [run] at h; subst h; exact hi
+  | e :: es, s, s', hi, h => by
+    simp only [run] at h
+    cases hs : step s e with
+    | none => rw [hs] at h; cases h
+    | some s1 => rw [hs] at h; exact storedReq_run es s1 s' (storedReq_step hi hs) h
+
+end Fsm.R
